@@ -343,6 +343,8 @@ class Eval:
             if op in ('quo', 'rem', 'mod'):
                 if b == 0:
                     raise OutOfSubset('zero divisor')
+                if self.it == 'MI' and a == MIN64 and b == -1:
+                    raise OutOfSubset('min quo/rem/mod -1 overflows the machine division')
                 q = abs(a) // abs(b)
                 if (a < 0) != (b < 0):
                     q = -q
